@@ -59,6 +59,15 @@ pub const FRAGS: &[&str] = &[
     "%sysfunc(max(", ",", ",", "=", "(", ")", ")", "x=1;", "run;", "%m;", "%m(1);", "%end; ", "%then %do;", "%else %do;", "%do i=1 %to 3;", "%do %while(", "%do %until(",
 ];
 
+fn all_kw_words() -> &'static Vec<String> {
+    static W: std::sync::OnceLock<Vec<String>> = std::sync::OnceLock::new();
+    W.get_or_init(|| crate::oracle::kw::kw_table().keys().cloned().collect())
+}
+fn all_kwm_words() -> &'static Vec<String> {
+    static W: std::sync::OnceLock<Vec<String>> = std::sync::OnceLock::new();
+    W.get_or_init(|| crate::oracle::kw::kwm_table().keys().cloned().collect())
+}
+
 /// fragment soup
 pub fn g_soup(s: &mut Src, max_frags: usize) -> String {
     let c = corpus();
@@ -68,11 +77,26 @@ pub fn g_soup(s: &mut Src, max_frags: usize) -> String {
     }
     let k = 1 + s.below(max_frags);
     for _ in 0..k {
-        match s.below(16) {
+        match s.below(18) {
             0 | 1 => out.push_str(corpus_item(s, c)),
             2 => {
                 let t = g_text(s, 6);
                 out.push_str(&t);
+            }
+            16 => {
+                // every open-code keyword of the token type enum (names only; spelling case varies)
+                let ws = all_kw_words();
+                let w = &ws[s.below(ws.len())];
+                if s.coin(1, 4) { out.push_str(&w.to_ascii_lowercase()); } else { out.push_str(w); }
+                out.push_str(s.pick(&[" ", " ", ";", "", "(", "="]));
+            }
+            17 => {
+                // every macro keyword, with and without '('
+                let ws = all_kwm_words();
+                let w = &ws[s.below(ws.len())];
+                out.push('%');
+                if s.coin(1, 4) { out.push_str(&w.to_ascii_lowercase()); } else { out.push_str(w); }
+                out.push_str(s.pick(&["(", "(", " ", "", ";", " (", "(a,", "(a)"]));
             }
             3 => {
                 if s.coin(1, 6) {
